@@ -780,6 +780,9 @@ class DecimalRange(Range):
                 raise errors.RangeValueError("value must be decimal but is %s" % _compat.text_repr(value), location)
         else:
             value_as_decimal = value
+        if value_as_decimal.is_nan():
+            # Comparing NaN with the limits would raise decimal.InvalidOperation.
+            raise errors.RangeValueError("value must be a number but is %s" % _compat.text_repr(str(value)), location)
 
         if self._items is not None:
             is_valid = False
